@@ -1,4 +1,4 @@
-HOOK_COMMITS = ["3d3f887"]
+HOOK_COMMITS = ["3d3f887", "9008517"]
 
 PROOF_NOTE = ("Trusted: Lean 4.33.0 kernel; axioms propext/Quot.sound/Classical.choice only (audited on every run by "
               "#print axioms; no sorry/native_decide/bv_decide). The theorems are about the hand-written model in "
